@@ -5,6 +5,7 @@ package props
 
 import (
 	"fmt"
+	"github.com/cosmos/cosmos-sdk/x/authz"
 	"math/big"
 	"sort"
 	"strings"
@@ -75,6 +76,7 @@ func TestC18_LicenceEscrowAndVesting(t *testing.T) {
 		giftsToModule := false
 		cfg := map[string]bool{"funders": false, "feegranter": false, "contract": false}
 		forceRightContract := false
+		foreignActivations := 0
 		var funders []sdk.AccAddress
 		var log []string
 		skyNonce := uint64(0)
@@ -384,6 +386,33 @@ func TestC18_LicenceEscrowAndVesting(t *testing.T) {
 			"directLicence2": directLicence,
 			"directLicence3": directLicence,
 			"configure":      configure,
+			// somebody else tries to activate a pending licence in the licensee's name: the message names the licensee as
+			// creator but is signed by the stranger, bare or wrapped in 1-3 layers of authz.MsgExec
+			"foreignActivate": func(t *rapid.T) {
+				if len(pending) == 0 {
+					t.Skip("no pending licence")
+				}
+				keys := make([]string, 0, len(pending))
+				for k := range pending {
+					keys = append(keys, k)
+				}
+				sort.Strings(keys)
+				pick := rapid.SampledFrom(keys).Draw(t, "which")
+				target, _ := sdk.AccAddressFromBech32(pick)
+				var msg sdk.Msg = &palomatypes.MsgRegisterLightNodeClient{Metadata: chain.MDAs(target, rich)}
+				depth := rapid.IntRange(0, 3).Draw(t, "execDepth")
+				for i := 0; i < depth; i++ {
+					ex := authz.NewMsgExec(rich.Addr, []sdk.Msg{msg})
+					msg = &ex
+				}
+				ok, _ := deliver(t, rich, msg)
+				log = append(log, fmt.Sprintf("foreignActivate(%s,depth %d)=%v", pick[len(pick)-4:], depth, ok))
+				if ok {
+					t.Fatalf("a licence was activated by an account that is not the licensee (authz nesting depth %d)\nhistory: %v", depth, log)
+				}
+				foreignActivations++
+				_ = foreignActivations
+			},
 			// governance withdraws the bridge chain's sale contract (the replacement set names other chains only, or
 			// nothing) and the formerly authorised contract reports a sale right afterwards
 			"withdrawContractThenSale": func(t *rapid.T) {
